@@ -311,6 +311,9 @@ func (e *estimatorStub) EstimateFeePerKW(targetBlocks uint32) (btcutil.Amount, e
 		case "zero":
 			return 0, nil
 		case "huge":
+			if e.n.ext.maxFeeKw < 5_000_000 {
+				e.n.ext.maxFeeKw = 5_000_000
+			}
 			return 5_000_000, nil
 		}
 	}
